@@ -7,7 +7,7 @@ SHRINK_FIELDS = ['ro_xml', 'msg_xml', 'doc']
 RULE = (
     "Cases: the exhaustive story/item scopes (blank, unknown, missing, repeated and self-referential "
     "IDs at every slot), the roElementAction shape enumeration of C08 (classification of well-formed "
-    "documents; a sample of them also as files and bytes in declared ISO-8859-1 / UTF-16 encodings), Hypothesis single steps and histories with fault-heavy references over running "
+    "documents; a sample of them also as files and bytes in declared ISO-8859-1 / UTF-16 encodings, and declaring encodings the parser cannot decode - Shift_JIS, UTF-32, UCS-2, ...), Hypothesis single steps and histories with fault-heavy references over running "
     "orders whose stories carry any subset of the timing metadata (including none, and metadata "
     "without a payload), and non-strict collection merges (one in six over documents whose roID is blank throughout).  Oracle: an exception leaving "
     "MosFile.from_string on a well-formed document must be a MosRoMgrException; an exception "
@@ -20,7 +20,7 @@ ASSUMPTIONS = [
     'roStorySend has a storyBody, every story has a storyID and every item an itemID)',
 ]
 MANDATORY = ['ref-fault', 'untimed-story-present', 'degenerate', 'classification:ea-shape',
-             'classification:encoded-file', 'classification:encoded-bytes',
+             'classification:encoded-file', 'classification:encoded-bytes', 'classification:undecodable-declared-encoding',
              'collection:non-strict']
 
 
@@ -81,6 +81,42 @@ def judge_doc(case):
     return []
 
 
+# encodings a document may legitimately declare but the XML parser underneath cannot decode
+UNDECODABLE = ['Shift_JIS', 'Big5', 'UTF-32', 'UCS-2', 'EUC-JP', 'GB2312', 'ANSI', 'utf-16-le', 'x-user-defined',
+               'latin-9', 'utf-7', 'punycode', 'undefined']
+
+
+def judge_declared(case):
+    """A well-formed document (pure ASCII bytes) that declares an encoding the parser cannot handle:
+    whatever happens, only a MosRoMgrException may leave the library."""
+    import os
+    import warnings
+    from vlib.step import Failure, classify_exc
+    from vlib import env
+    from mosromgr.mostypes import MosFile
+    from mosromgr.moscollection import MosReader
+    raw = (f'<?xml version="1.0" encoding="{case["declared"]}"?>' + case['doc']).encode('ascii', 'xmlcharrefreplace')
+    d = os.path.join(env.WORK_DIR, f'c12-{os.getpid()}')
+    os.makedirs(d, exist_ok=True)
+    path = os.path.join(d, 'declared.mos.xml')
+    with open(path, 'wb') as f:
+        f.write(raw)
+    fails = []
+    with warnings.catch_warnings():
+        warnings.simplefilter('ignore')
+        for name, fn in (('bytes', lambda: MosFile.from_string(raw)), ('file', lambda: MosFile.from_file(path)),
+                         ('reader-file', lambda: MosReader.from_file(path))):
+            try:
+                fn()
+            except Exception as e:
+                ename, _m, is_mos, site = classify_exc(e)
+                if not is_mos:
+                    fails.append(Failure(PROP, f'C12|classify-declared-encoding|{ename}|{site}',
+                                         f'{name}: a document declaring encoding="{case["declared"]}" made '
+                                         f'{ename} escape at {site}: {e}', 'MosRoMgrException', ename))
+    return fails
+
+
 def judge_collection(case):
     from vlib.step import Failure, classify_exc
     from mosromgr.moscollection import MosCollection
@@ -104,6 +140,8 @@ def judge_collection(case):
 
 
 def rejudge(case):
+    if 'declared' in case:
+        return judge_declared(case)
     if 'doc' in case:
         return judge_doc(case)
     if 'docs' in case:
@@ -129,6 +167,12 @@ def shard_ea_shapes(args):
                        'bytes:utf8bom'):
             case = {'doc': doc, 'source': source}
             col.record(case, True, ['classification:encoded-' + source.split(':')[0]], judge_doc(case))
+    # ... and declaring an encoding that the parser underneath cannot decode
+    for n, (label, doc, _exp) in enumerate(c08.enum_ea_shapes()):
+        if n % 97 == 0:
+            for decl in UNDECODABLE:
+                case = {'doc': doc, 'declared': decl}
+                col.record(case, True, ['classification:undecodable-declared-encoding'], judge_declared(case))
     col.scopes.append('classification: every roElementAction (operation, target shape, source shape) combination')
     return col
 
@@ -143,7 +187,7 @@ def shard_collections(args):
 
     @st.composite
     def coll(draw):
-        ro = draw(gen.running_order(min_stories=1, max_stories=4, rich=True))
+        ro = draw(gen.running_order(min_stories=1, max_stories=4, rich=True, allow_no_slug=True))
         state = xmlcmp.state_of(ET.fromstring(ro['ro_xml']))
         docs = [ro['ro_xml']]
         mid = ro['mid']
@@ -175,10 +219,11 @@ def run(tier, seed, procs):
     N, M, K = (3, 3, 2) if quick else (5, 5, 3)
     cols = drive.pool_map(shard_ea_shapes, [None], 1)
     cols += drive.pool_map(drive.shard_enum_story,
-                           [(MOD, n, lay, K) for n in range(0, N + 1) for lay in ('none', 'mixed')], procs)
+                           [(MOD, n, lay, K) for n in range(0, N + 1) for lay in ('none', 'mixed', 'anon')], procs)
+    cols += drive.pool_map(drive.shard_enum_story_big, [(MOD, 3, 270, 2)], 1)
     refs = ['TGT', '', None, 'ZZ-unknown-story']
     cols += drive.pool_map(drive.shard_enum_item,
-                           [(MOD, m, 'mixed', K, pos, refs) for m in range(0, M + 1) for pos in (0, 1)], procs)
+                           [(MOD, m, pl, K, pos, refs) for m in range(0, M + 1) for pos in (0, 1) for pl in ('mixed', 'anon-item')], procs)
     kw = dict(allow_no_slug=True, kinds=list(build.ALL_KINDS), faults='heavy', rich=True, degenerate=True)
     shards, per = (8, 500) if quick else (16, 20000)
     cols += drive.pool_map(drive.shard_hyp_steps,
